@@ -181,12 +181,17 @@ func (g *Gen) wellFormed(term string, t types.Type, alloc string) string {
 	case "Int":
 		return g.typeRange(term, t)
 	case "Ptr":
-		return sAnd(app("<=", pObj(term), alloc), g.M.ixLe(g.M.IxLit(0), pOff(term)), g.M.ixLe(pOff(term), g.M.IxLit(1<<48)))
+		ext := "true"
+		if et, ok := deref(t); ok {
+			ext = sOr(sEq(pObj(term), "0"), g.M.ixLe(g.M.ixAdd(pOff(term), g.M.IxLit(g.L.Size(et))), app("objsize", pObj(term))))
+		}
+		return sAnd(app("<=", pObj(term), alloc), g.M.ixLe(g.M.IxLit(0), pOff(term)), g.M.ixLe(pOff(term), g.M.IxLit(1<<48)), ext)
 	case "Slice":
 		p := app("sl.ptr", term)
 		return sAnd(app("<=", pObj(p), alloc),
 			g.M.ixLe(g.M.IxLit(0), app("sl.len", term)), g.M.ixLe(app("sl.len", term), app("sl.cap", term)),
 			g.M.ixLe(g.M.IxLit(0), pOff(p)), g.M.ixLe(pOff(p), g.M.IxLit(1<<48)), g.M.ixLe(app("sl.cap", term), g.M.IxLit(1<<48)),
+			sOr(sEq(pObj(p), "0"), g.M.ixLe(g.M.ixAdd(pOff(p), g.M.ixMulC(app("sl.cap", term), g.sliceElemSize(t))), app("objsize", pObj(p)))),
 			sImp(sEq(pObj(p), "0"), sEq(app("sl.cap", term), g.M.IxLit(0))))
 	case "Iface":
 		return sAnd(app("<=", pObj(app("if.val", term)), alloc), app("<=", "0", app("if.dyn", term)),
@@ -432,4 +437,12 @@ func (g *Gen) convertInt(x string, ft, tt types.Type) string {
 		return sIte(app("<", x, "0"), app("+", x, m), x)
 	}
 	return g.wrap(x, tt)
+}
+
+
+func (g *Gen) sliceElemSize(t types.Type) int64 {
+	if st, ok := t.Underlying().(*types.Slice); ok {
+		return g.L.Size(st.Elem())
+	}
+	return 1
 }
